@@ -251,6 +251,10 @@ def body_C07(ctx):
     # the task-spawning kinds on programs in which nothing fails: a third of them is executed twice, the second time on a new tokio
     # runtime, and must return what it returned the first time (and what the plain kinds return: the reference semantics)
     k2async.body(ctx, kinds=("a1t0s1", "a1t1s1"), n=ctx.n(18, 180), fail_rate=(0, 1))
+    # several failures in one step and no pending point anywhere: the plain async try macro returns the first failing branch's
+    # failure (every chain is ready when first polled), so its task-spawning counterpart must return exactly that one too
+    k2async.body(ctx, kinds=("a1t1s0", "a1t1s1", "a1t1s1"), n=ctx.n(24, 240), fail_rate=(1, 2), handler_rate=(0, 1), max_branches=4,
+                 max_depth=2, no_gates=True)
     # hygiene: user code inside a macro body that refers to a caller's variable whose name is one the expansion itself writes
     # (the spawning variants write more of them: thread builders, task helpers) must see the caller's variable in all twelve macros
     outs = [r.out for r in ctx.k1_reals if r.gen == "ok"]
@@ -336,6 +340,12 @@ def scaffold_batch(ctx, kinds, n, **kw):
         prof = [1 + ctx.rng.below(12 if ctx.rng.chance(1, 3) else 5) for _ in range(nb)]
         progs.append(k2.gen_scaffold(ctx.rng, "big%d" % i, ctx.rng.pick(kinds), profile=prof,
                                      fail_rate=(fr[0], fr[1] * 8) if fr[0] else fr, **kwb))
+    # ... and a few with very long steps (11-16 actions in one step of one branch, most of them with block operands): what depends on
+    # an action's position in its step (two-digit positions in the generated names)
+    kwl = {k: v for k, v in kwb.items() if k not in ("block_rate", "wrap_rate")}
+    for i in range(ctx.n(2, 8)):
+        progs.append(k2.gen_scaffold(ctx.rng, "long%d" % i, ctx.rng.pick(kinds), profile=[1 + ctx.rng.below(2) for _ in range(1 + ctx.rng.below(2))],
+                                     fail_rate=(0, 1), block_rate=(3, 4), step_len=(11, 16), **kwl))
     return progs
 
 
@@ -582,7 +592,10 @@ def body_C08(ctx):
         for kind in spawn:
             p = k2.gen_scaffold(ctx.rng, "g%d_%s" % (i, kind), kind, profile=prof, fail_rate=(0, 1), panic_rate=(0, 1), handler_rate=(0, 1))
             gated.append(k2.add_gates(p, ids))
-    run_k2(ctx, progs + gated)
+    # a failure in the last step next to a sibling that is still busy: the caller goes on only after every thread has finished
+    late = [k2.gen_late_failure(ctx.rng, "late%d_%s" % (i, kind), kind, prof)
+            for i, prof in enumerate([(1, 1), (2, 2), (1, 2, 2), (3, 3, 3), (2, 1, 2, 2)]) for kind in spawn]
+    run_k2(ctx, progs + gated + late)
     k2.run_nested_names(ctx)
     ctx.out.coverage["rule"] = ("thread-spawning macros: random programs (thread name and id of every callback, one distinct thread per "
                                 "(branch, step), callbacks of a step with one active branch on the caller); gated programs where every "
@@ -695,6 +708,11 @@ def body_C11(ctx):
     run_k2(ctx, progs)
     items = [(ctx.rng.pick(G.KINDS), s, "operators") for s in G.fam_operators() if "{" in s]
     items += [(ctx.rng.pick(G.KINDS), s, "wrappers") for s in G.fam_wrappers() if "{" in s]
+    # long steps: block operands at one- and two-digit positions of the same step (first step, later step, inside a wrapper)
+    for n_act in (11, 12, 21, 101):
+        chain = " ".join("|> { f%d }" % j for j in range(1, n_act))
+        items += [(k, src, "long-step-blocks") for k in (G.KINDS if n_act < 21 else [ctx.rng.pick(G.KINDS)])
+                  for src in ("{ b } " + chain, "a ~" + chain[:2] + chain[2:] + " ^@ { i }, { g }", "a, { b } => >>> " + chain + " <<< |> { z }")]
     ctx.k1(mk_cases(items))
     # hoisted definitions and `lazy_branches(true)` / `custom_joiner`: the block operands of a step are evaluated before the step's
     # expressions whatever the joiner does with the branches - no `let __ew… = {…}` inside what is handed to the joiner
@@ -979,6 +997,10 @@ def body_C16(ctx):
                                "what": "parsed option assignment differs from the written subset"}, True, "option-assignment")
     items2 = [(k, "custom_joiner(jn!) lazy_branches(%s) %s" % (lz, s), "joiner") for s, _ in G.fam_profiles(3, 3)[::2]
               for k in G.KINDS for lz in ("true", "false")]
+    # the joiner next to the other options (both orders): a configured futures path must not displace it
+    items2 += [(k, o % s, "joiner") for s, _ in G.fam_profiles(3, 3)[::3] for k in ("a1t0s0", "a1t1s0", "a1t0s1", "a1t1s1")
+               for o in ("futures_crate_path(my::fut) custom_joiner(jn!) %s", "custom_joiner(jn!) futures_crate_path(::futures) %s",
+                         "lazy_branches(true) futures_crate_path(::futures) custom_joiner(jn!) %s")]
     items2 += [(k, "transpose_results(false) custom_joiner(tj) %s" % s, "transpose") for s, _ in G.fam_profiles(3, 3)[::2]
                for k in ("a0t1s0", "a1t1s0", "a0t1s1", "a1t1s1")]
     items2 += [(k, "futures_crate_path(my::fut) %s" % s, "fcp") for s, _ in G.fam_profiles(3, 2) for k in ("a1t0s0", "a1t1s0", "a1t0s1", "a1t1s1")]
@@ -990,7 +1012,8 @@ def body_C16(ctx):
                                    "what": "a futures item does not come from the configured futures_crate_path"}, True, "fcp")
         if r.parse == "ok" and r.gen == "ok" and r.family == "joiner":
             # one joiner application per step with >1 active branches
-            depths = [len(b.split(" ~")) for b in r.src.split(") ", 2)[-1].split(", ")]
+            body_src = re.sub(r"^((futures_crate_path|custom_joiner|transpose_results|lazy_branches)\([^)]*\)\s*)+", "", r.src)
+            depths = [len(b.split(" ~")) for b in body_src.split(", ")]
             expect = sum(1 for k in range(max(depths)) if sum(1 for d in depths if d > k) > 1)
             got = len(re.findall(r"i:jn p:! \(", r.out))
             if got != expect:
